@@ -11,6 +11,7 @@ import Wencry.Proofs.SeqGlue
 import Wencry.Proofs.ModesCorrect
 import Wencry.Proofs.AesCorrect
 import Wencry.Proofs.EncSpec
+import Wencry.Proofs.DialogCorrect
 namespace Wencry.Props.C18
 open Wencry Wencry.Model Wencry.Model.Modes
 
@@ -50,5 +51,30 @@ theorem ctr_steps_by_one (iv : Block) : Spec.Modes.toNat128 (ctrInc iv) = (Spec.
   rw [Proofs.Modes.ctrInc_eq]
   unfold Spec.Modes.inc128
   exact Proofs.Modes.toNat128_ofNat128 _ (Nat.mod_lt _ (by decide))
+
+/-! ### the interactive path (`Wencry` without arguments)
+`iv_area_is_sha1_chain` is about the seed `main` is handed. In the dialogue that seed is what the user types after the hash mode
+(Model/Dialog.lean, tied to the real `get_v_mod1` by the `dlgparse` suite, and through the real binary by `dialog`). -/
+
+/-- answering the encryption dialogue one answer per line, in a non-ECB mode: the parameters handed to `main` are exactly the
+    typed ones — the seed of the IV chain is the typed seed -/
+theorem interactive_seed_is_the_typed_seed (opens : Bytes → Bool) (file keyText seed key : Bytes) (c h : Nat)
+    (hfile : Proofs.Dialog.IsWord file) (hflen : file.length < 128) (hopen : opens file = true)
+    (hkey : Base64.isValidB64 keyText = true) (hdec : Base64.getArgsKey keyText = .ok (some key))
+    (hc : 1 ≤ c ∧ c ≤ 4) (hh : h ≤ 2) (hseed : Proofs.Dialog.IsWord seed) (hslen : seed.length < 256) :
+    Dialog.dialogue opens (Proofs.Dialog.scriptE file keyText c h seed) =
+      some { mode := 101, file := file, key := some key, ctype := c, htype := h, seed := some seed,
+             out := some (Dialog.baseName file ++ Dialog.dot_wenc) } :=
+  Proofs.Dialog.dialogue_scriptE opens file keyText seed key c h hfile hflen hopen hkey hdec hc hh hseed hslen
+
+/-- two different typed seeds reach `main` as different seeds -/
+theorem interactive_seeds_distinct (opens : Bytes → Bool) (file keyText seed seed' key : Bytes) (c h : Nat)
+    (hfile : Proofs.Dialog.IsWord file) (hflen : file.length < 128) (hopen : opens file = true)
+    (hkey : Base64.isValidB64 keyText = true) (hdec : Base64.getArgsKey keyText = .ok (some key))
+    (hc : 1 ≤ c ∧ c ≤ 4) (hh : h ≤ 2) (hseed : Proofs.Dialog.IsWord seed) (hslen : seed.length < 256)
+    (hseed' : Proofs.Dialog.IsWord seed') (hslen' : seed'.length < 256) (hne : seed ≠ seed') :
+    (Dialog.dialogue opens (Proofs.Dialog.scriptE file keyText c h seed)).map (·.seed) ≠
+      (Dialog.dialogue opens (Proofs.Dialog.scriptE file keyText c h seed')).map (·.seed) :=
+  Proofs.Dialog.typed_seeds_distinct opens file keyText seed seed' key c h hfile hflen hopen hkey hdec hc hh hseed hslen hseed' hslen' hne
 
 end Wencry.Props.C18
